@@ -30,6 +30,7 @@ func (db *DB) acquireSnapshot() *snapshotElement {
 	defer db.snapsMu.Unlock()
 
 	seq := db.getSeq()
+	verifAt("s.acquire", seq)
 
 	if e := db.snapsList.Back(); e != nil {
 		se := e.Value.(*snapshotElement)
@@ -51,6 +52,7 @@ func (db *DB) releaseSnapshot(se *snapshotElement) {
 	defer db.snapsMu.Unlock()
 
 	se.ref--
+	verifAt("s.release", se.seq, se.ref)
 	if se.ref == 0 {
 		db.snapsList.Remove(se.e)
 		se.e = nil
@@ -65,6 +67,7 @@ func (db *DB) minSeq() uint64 {
 	defer db.snapsMu.Unlock()
 
 	if e := db.snapsList.Front(); e != nil {
+		verifAt("s.minseq", e.Value.(*snapshotElement).seq)
 		return e.Value.(*snapshotElement).seq
 	}
 
